@@ -23,7 +23,7 @@ PROCS = [("fdr", False, None, "bh"), ("fdr", True, None, "by"),
 
 
 def gen_pvalues(rng, m, alpha):
-    mode = rng.choice(["random", "ties", "boundary", "extremes", "small"])
+    mode = rng.choice(["random", "ties", "boundary", "extremes", "small", "tiny"])
     ps = []
     for k in range(m):
         if mode == "random":
@@ -33,6 +33,8 @@ def gen_pvalues(rng, m, alpha):
         elif mode == "boundary":       # values exactly on the rejection boundaries alpha*k/m, alpha/(m-k+1)
             kk = rng.randint(1, m)
             ps.append(min(F(1), rng.choice([alpha * kk / m, alpha / (m - kk + 1), alpha, alpha * kk / m + F(1, 10**6)])))
+        elif mode == "tiny":           # distinct p-values far below any rounding granularity (and exact zeros)
+            ps.append(rng.choice([F(0), F(rng.randint(1, 9), 10**rng.randint(13, 40)), F(1, 10**300), F(3, 10**13)]))
         elif mode == "extremes":
             ps.append(rng.choice([F(0), F(1), F(1, 10**9), F(999, 1000), alpha]))
         else:
